@@ -3,16 +3,25 @@
 
    What is modelled (after the fix: commits on branch verif-C18):
 
-   * Client.managed            ch_entry a    (table entry for occupant address a)
-   * Channel.joined            ch_joined a   (what Channel.Joined reports)
-   * Channel.join  (cap. 1)    ch_jq a       head = the buffered join context, the
+   * Channel objects           chans h       h : chid, numbered in order of creation; a
+                                             Channel has a fixed occupant address ch_addr
+                                             (the Nick option is outside the model). SEVERAL
+                                             Channels may have the same address: every
+                                             Client.Join makes a new one (LNew).
+   * Client.managed            table a       the Channel registered for occupant address a:
+                                             last registration wins. Client.JoinPresence
+                                             registers the new Channel (LNew); EVERY
+                                             Channel.JoinPresence registers its Channel again,
+                                             unconditionally (LCall _ KJoin h); the unavailable
+                                             presence of a removes the entry.
+   * Channel.joined            ch_joined h   (what Channel.Joined reports)
+   * Channel.join  (cap. 1)    ch_jq h       head = the buffered join context, the
                                              rest = publishers blocked on the full buffer
                                              (Go hands the buffer slot to the first blocked
                                              sender in the same step that empties it)
-   * Channel.depart (cap. 1)   ch_dep a      a kept departure notification
-   * one Channel object per occupant address (the model has no step for a second
-     Client.Join of an address that already has a Channel, nor for two calls in
-     flight on one Channel: [step] is None there)
+   * Channel.depart (cap. 1)   ch_dep h      a kept departure notification
+   * at most one call in flight per Channel ([step] is None for a second one);
+     calls on different Channels, also of one address, overlap freely
    * a call k (Join or Leave):  PStart  registered, before the publish select
                                 PQueued sent on / blocked on the join buffer
                                 PWait   request sender spawned, at the final select
@@ -35,16 +44,17 @@ From XV Require Import lib.Lts.
 
 Definition addr := nat.
 Definition cid := nat.
+Definition chid := nat.
 
 Inductive kind := KJoin | KLeave.
 Inductive outcome := OSuccess | OStanzaErr | OCtxErr | OOther.
 Inductive phase := PStart | PQueued | PWait | PRet (o : outcome).
 
 Record call := mkcall {
-  c_kind : kind; c_addr : addr; c_phase : phase; c_done : bool; c_replied : bool }.
+  c_kind : kind; c_chan : chid; c_phase : phase; c_done : bool; c_replied : bool }.
 
 Record chan := mkchan {
-  ch_made : bool; ch_entry : bool; ch_joined : bool; ch_jq : list cid; ch_dep : bool }.
+  ch_made : bool; ch_addr : addr; ch_joined : bool; ch_jq : list cid; ch_dep : bool }.
 
 (* SDead: a handler returned an error to the Serve loop, which ended *)
 Inductive serve := SIdle | SOffer (k : cid) | SAwait (k : cid) | SDead.
@@ -60,7 +70,9 @@ Inductive child :=
 Record state := mkstate {
   calls : cid -> option call;
   ncalls : nat;
-  chans : addr -> chan;
+  chans : chid -> chan;
+  nchans : nat;
+  table : addr -> option chid;
   srv : serve;
   cb_pres : list addr;
   cb_inv : list nat }.
@@ -75,7 +87,9 @@ Inductive stanza :=
 | Other.                    (* anything else *)
 
 Inductive label :=
-| LCall (k : cid) (kd : kind) (a : addr)   (* a call starts: registered in the table (join) / stale departure dropped and request sent (leave) *)
+| LNew (h : chid) (a : addr)               (* Client.Join / Client.JoinPresence makes Channel h for occupant address a and registers it *)
+| LCall (k : cid) (kd : kind) (h : chid)   (* a call on Channel h starts: Channel.JoinPresence registers h for its address /
+                                              Channel.LeavePresence drops a stale departure and sends its request *)
 | LPush (k : cid)                          (* join: send on the join buffer (may block) *)
 | LPushed (k : cid)                        (* join: the send completed; request sender spawned *)
 | LRet (k : cid) (o : outcome)             (* the call returns o *)
@@ -83,41 +97,48 @@ Inductive label :=
 | LDeliver (st : stanza)                   (* Serve reads the next stanza and handles it *)
 | LSeeDone                                 (* the presence handler sees that the context it offers to is done *)
 | LSenderQuit (k : cid)                    (* the request sender of k drops the error reply: context done *)
-| LQuery (a : addr) (b : bool).            (* Channel.Joined() on the channel of a returned b *)
+| LQuery (h : chid) (b : bool).            (* Joined() on Channel h returned b *)
 
-Definition chan0 : chan := mkchan false false false [] false.
+Definition chan0 : chan := mkchan false 0 false [] false.
 
-Definition init : state := mkstate (fun _ => None) 0 (fun _ => chan0) SIdle [] [].
+Definition init : state := mkstate (fun _ => None) 0 (fun _ => chan0) 0 (fun _ => None) SIdle [] [].
 
 (* ---- record updates ---- *)
 
 Definition set_call (s : state) (k : cid) (c : call) : state :=
-  mkstate (fun x => if Nat.eqb x k then Some c else calls s x) (ncalls s) (chans s) (srv s) (cb_pres s) (cb_inv s).
+  mkstate (fun x => if Nat.eqb x k then Some c else calls s x) (ncalls s) (chans s) (nchans s) (table s) (srv s) (cb_pres s) (cb_inv s).
 
 Definition add_call (s : state) (c : call) : state :=
-  mkstate (fun x => if Nat.eqb x (ncalls s) then Some c else calls s x) (S (ncalls s)) (chans s) (srv s) (cb_pres s) (cb_inv s).
+  mkstate (fun x => if Nat.eqb x (ncalls s) then Some c else calls s x) (S (ncalls s)) (chans s) (nchans s) (table s) (srv s) (cb_pres s) (cb_inv s).
 
-Definition set_chan (s : state) (a : addr) (c : chan) : state :=
-  mkstate (calls s) (ncalls s) (fun x => if Nat.eqb x a then c else chans s x) (srv s) (cb_pres s) (cb_inv s).
+Definition set_chan (s : state) (h : chid) (c : chan) : state :=
+  mkstate (calls s) (ncalls s) (fun x => if Nat.eqb x h then c else chans s x) (nchans s) (table s) (srv s) (cb_pres s) (cb_inv s).
+
+Definition add_chan (s : state) (c : chan) : state :=
+  mkstate (calls s) (ncalls s) (fun x => if Nat.eqb x (nchans s) then c else chans s x) (S (nchans s)) (table s) (srv s) (cb_pres s) (cb_inv s).
+
+Definition set_table (s : state) (a : addr) (v : option chid) : state :=
+  mkstate (calls s) (ncalls s) (chans s) (nchans s) (fun x => if Nat.eqb x a then v else table s x) (srv s) (cb_pres s) (cb_inv s).
 
 Definition set_srv (s : state) (v : serve) : state :=
-  mkstate (calls s) (ncalls s) (chans s) v (cb_pres s) (cb_inv s).
+  mkstate (calls s) (ncalls s) (chans s) (nchans s) (table s) v (cb_pres s) (cb_inv s).
 
 Definition log_pres (s : state) (a : addr) : state :=
-  mkstate (calls s) (ncalls s) (chans s) (srv s) (cb_pres s ++ [a]) (cb_inv s).
+  mkstate (calls s) (ncalls s) (chans s) (nchans s) (table s) (srv s) (cb_pres s ++ [a]) (cb_inv s).
 
 Definition log_invs (s : state) (l : list nat) : state :=
-  mkstate (calls s) (ncalls s) (chans s) (srv s) (cb_pres s) (cb_inv s ++ l).
+  mkstate (calls s) (ncalls s) (chans s) (nchans s) (table s) (srv s) (cb_pres s) (cb_inv s ++ l).
 
-Definition with_phase (c : call) (p : phase) : call := mkcall (c_kind c) (c_addr c) p (c_done c) (c_replied c).
-Definition with_done (c : call) : call := mkcall (c_kind c) (c_addr c) (c_phase c) true (c_replied c).
-Definition with_replied (c : call) : call := mkcall (c_kind c) (c_addr c) (c_phase c) (c_done c) true.
-Definition returned (c : call) (o : outcome) : call := mkcall (c_kind c) (c_addr c) (PRet o) true (c_replied c).
+Definition with_phase (c : call) (p : phase) : call := mkcall (c_kind c) (c_chan c) p (c_done c) (c_replied c).
+Definition with_done (c : call) : call := mkcall (c_kind c) (c_chan c) (c_phase c) true (c_replied c).
+Definition with_replied (c : call) : call := mkcall (c_kind c) (c_chan c) (c_phase c) (c_done c) true.
+Definition returned (c : call) (o : outcome) : call := mkcall (c_kind c) (c_chan c) (PRet o) true (c_replied c).
 
-Definition with_entry (c : chan) (b : bool) : chan := mkchan (ch_made c) b (ch_joined c) (ch_jq c) (ch_dep c).
-Definition with_joined (c : chan) (b : bool) : chan := mkchan (ch_made c) (ch_entry c) b (ch_jq c) (ch_dep c).
-Definition with_jq (c : chan) (q : list cid) : chan := mkchan (ch_made c) (ch_entry c) (ch_joined c) q (ch_dep c).
-Definition with_dep (c : chan) (b : bool) : chan := mkchan (ch_made c) (ch_entry c) (ch_joined c) (ch_jq c) b.
+Definition with_joined (c : chan) (b : bool) : chan := mkchan (ch_made c) (ch_addr c) b (ch_jq c) (ch_dep c).
+Definition with_jq (c : chan) (q : list cid) : chan := mkchan (ch_made c) (ch_addr c) (ch_joined c) q (ch_dep c).
+Definition with_dep (c : chan) (b : bool) : chan := mkchan (ch_made c) (ch_addr c) (ch_joined c) (ch_jq c) b.
+(* the occupant's unavailable presence: membership ends, the departure is notified (kept if nobody waits) *)
+Definition departed (c : chan) : chan := mkchan (ch_made c) (ch_addr c) false (ch_jq c) true.
 
 (* ---- predicates ---- *)
 
@@ -140,20 +161,20 @@ Fixpoint remove_id (k : cid) (l : list cid) : list cid :=
   | x :: r => if Nat.eqb x k then r else x :: remove_id k r
   end.
 
-(* no call on address a is in flight *)
-Definition idle (s : state) (a : addr) : bool :=
+(* no call on Channel h is in flight *)
+Definition idle (s : state) (h : chid) : bool :=
   forallb (fun k => match calls s k with
-                    | Some c => negb (Nat.eqb (c_addr c) a) || is_ret (c_phase c)
+                    | Some c => negb (Nat.eqb (c_chan c) h) || is_ret (c_phase c)
                     | None => true
                     end) (seq 0 (ncalls s)).
 
-(* ---- the presence handler takes the head of the join buffer of a (or falls
-        through to the user presence callback) ---- *)
-Definition take (s : state) (a : addr) : state :=
-  let ch := chans s a in
+(* ---- the presence handler, having found Channel h in the table, takes the
+        head of its join buffer (or falls through to the user presence callback) ---- *)
+Definition take (s : state) (h : chid) : state :=
+  let ch := chans s h in
   match ch_jq ch with
-  | [] => log_pres (set_srv s SIdle) a
-  | k :: rest => set_srv (set_chan s a (with_jq ch rest)) (SOffer k)
+  | [] => log_pres (set_srv s SIdle) (ch_addr ch)
+  | k :: rest => set_srv (set_chan s h (with_jq ch rest)) (SOffer k)
   end.
 
 (* ---- a normal message: the multiplexer invokes the client's handler once for
@@ -180,10 +201,16 @@ Definition msg_calls (cs : list child) : list nat :=
 
 Definition deliver (s : state) (st : stanza) : state :=
   match st with
-  | PresAvail a => if ch_entry (chans s a) then take s a else s
+  | PresAvail a =>
+      match table s a with
+      | Some h => take s h
+      | None => s
+      end
   | PresUnavail a =>
-      let ch := chans s a in
-      if ch_entry ch then set_chan s a (mkchan (ch_made ch) false false (ch_jq ch) true) else s
+      match table s a with
+      | Some h => set_chan (set_table s a None) h (departed (chans s h))
+      | None => s
+      end
   | ErrReply k =>
       match calls s k with
       | Some c =>
@@ -197,23 +224,26 @@ Definition deliver (s : state) (st : stanza) : state :=
   | PresBad a =>
       (* the table is consulted first: no entry, no decoding; with an entry the
          decoding error is returned to the Serve loop *)
-      if ch_entry (chans s a) then set_srv s SDead else s
+      match table s a with
+      | Some _ => set_srv s SDead
+      | None => s
+      end
   | Msg cs => log_invs s (msg_calls cs)
   | Other => s
   end.
 
 Definition ret (s : state) (k : cid) (c : call) (o : outcome) : option state :=
-  let a := c_addr c in
-  let ch := chans s a in
+  let h := c_chan c in
+  let ch := chans s h in
   match o with
   | OCtxErr =>
       if c_done c then
         match c_phase c with
         | PStart | PWait => Some (set_call s k (returned c OCtxErr))
         | PQueued => if mem k (tl (ch_jq ch))
-                     then Some (set_call (set_chan s a (with_jq ch (match ch_jq ch with
+                     then Some (set_call (set_chan s h (with_jq ch (match ch_jq ch with
                                                                    | [] => []
-                                                                   | h :: r => h :: remove_id k r
+                                                                   | x :: r => x :: remove_id k r
                                                                    end))) k (returned c OCtxErr))
                      else None
         | PRet _ => None
@@ -224,7 +254,7 @@ Definition ret (s : state) (k : cid) (c : call) (o : outcome) : option state :=
       | PWait => if serve_eqb (srv s) (SAwait k)
                  then let s1 := set_srv (set_call s k (returned c OStanzaErr)) SIdle in
                       Some (match c_kind c with
-                            | KLeave => set_chan s1 a (with_joined ch false)
+                            | KLeave => set_chan s1 h (with_joined ch false)
                             | KJoin => s1
                             end)
                  else None
@@ -235,10 +265,10 @@ Definition ret (s : state) (k : cid) (c : call) (o : outcome) : option state :=
       | PWait =>
           match c_kind c with
           | KJoin => if serve_eqb (srv s) (SOffer k)
-                     then Some (set_srv (set_chan (set_call s k (returned c OSuccess)) a (with_joined ch true)) SIdle)
+                     then Some (set_srv (set_chan (set_call s k (returned c OSuccess)) h (with_joined ch true)) SIdle)
                      else None
           | KLeave => if ch_dep ch
-                      then Some (set_chan (set_call s k (returned c OSuccess)) a (with_dep ch false))
+                      then Some (set_chan (set_call s k (returned c OSuccess)) h (with_dep ch false))
                       else None
           end
       | _ => None
@@ -248,25 +278,29 @@ Definition ret (s : state) (k : cid) (c : call) (o : outcome) : option state :=
 
 Definition step (s : state) (l : label) : option state :=
   match l with
-  | LCall k kd a =>
-      if Nat.eqb k (ncalls s) && idle s a then
-        let ch := chans s a in
-        match kd with
-        | KJoin => if is_offer (srv s) then None
-                   else Some (set_chan (add_call s (mkcall KJoin a PStart false false)) a
-                                       (mkchan true true (ch_joined ch) (ch_jq ch) (ch_dep ch)))
-        | KLeave => if ch_made ch
-                    then Some (set_chan (add_call s (mkcall KLeave a PWait false false)) a (with_dep ch false))
-                    else None
-        end
+  | LNew h a =>
+      (* under managedM: not while the presence handler holds it in an offer *)
+      if Nat.eqb h (nchans s) && negb (is_offer (srv s))
+      then Some (set_table (add_chan s (mkchan true a false [] false)) a (Some h))
+      else None
+  | LCall k kd h =>
+      if Nat.eqb k (ncalls s) && idle s h then
+        let ch := chans s h in
+        if ch_made ch then
+          match kd with
+          | KJoin => if is_offer (srv s) then None
+                     else Some (set_table (add_call s (mkcall KJoin h PStart false false)) (ch_addr ch) (Some h))
+          | KLeave => Some (set_chan (add_call s (mkcall KLeave h PWait false false)) h (with_dep ch false))
+          end
+        else None
       else None
   | LPush k =>
       match calls s k with
       | Some c =>
           match c_kind c, c_phase c with
           | KJoin, PStart =>
-              let ch := chans s (c_addr c) in
-              Some (set_call (set_chan s (c_addr c) (with_jq ch (ch_jq ch ++ [k]))) k (with_phase c PQueued))
+              let ch := chans s (c_chan c) in
+              Some (set_call (set_chan s (c_chan c) (with_jq ch (ch_jq ch ++ [k]))) k (with_phase c PQueued))
           | _, _ => None
           end
       | None => None
@@ -275,7 +309,7 @@ Definition step (s : state) (l : label) : option state :=
       match calls s k with
       | Some c =>
           match c_kind c, c_phase c with
-          | KJoin, PQueued => if mem k (tl (ch_jq (chans s (c_addr c)))) then None
+          | KJoin, PQueued => if mem k (tl (ch_jq (chans s (c_chan c)))) then None
                               else Some (set_call s k (with_phase c PWait))
           | _, _ => None
           end
@@ -300,7 +334,7 @@ Definition step (s : state) (l : label) : option state :=
       match srv s with
       | SOffer k =>
           match calls s k with
-          | Some c => if c_done c then Some (take s (c_addr c)) else None
+          | Some c => if c_done c then Some (take s (c_chan c)) else None
           | None => None
           end
       | _ => None
@@ -310,9 +344,9 @@ Definition step (s : state) (l : label) : option state :=
       | Some c => if serve_eqb (srv s) (SAwait k) && c_done c then Some (set_srv s SIdle) else None
       | None => None
       end
-  | LQuery a b =>
+  | LQuery h b =>
       if is_offer (srv s) then None
-      else if Bool.eqb b (ch_joined (chans s a)) then Some s else None
+      else if Bool.eqb b (ch_joined (chans s h)) then Some s else None
   end.
 
 Definition exec (tr : list label) : option state := run step init tr.
